@@ -179,6 +179,12 @@ def r2_put(ctx):
         elif x[0] == "call" and "VecDeque::pop_" in x[1]:
             popped = None
     ok = target(ra[0]) == fld("entry_map") and popped is not None
+    if not ok and target(ra[0]) == fld("entry_map") and not any(x[0] == "call" and "VecDeque::pop_" in x[1] for x in leaves(ra[1])) \
+            and not any(x[0] == "param" for x in leaves(ra[1])) and any(x[0] in ("var", "local", "phi") for x in leaves(ra[1])):
+        # the key comes out of a local assigned on several paths (a helper returning Option that was spliced in):
+        # where it comes from is not readable flow-insensitively
+        ctx.lost(rid, "the key removed from the map (%s)" % show(ra[1])[:80])
+        return
     ctx.ob(rid, "evicted-key-is-list-head", ok, "" if ok else "the key removed from the map is %s, not the value popped from the front of entry_list" % show(ra[1]), ctx.where(f, rt["line"]),
            sample={"removed": show(ra[1])})
 
@@ -186,16 +192,23 @@ def r2_put(ctx):
 def r3_others(ctx):
     rid = "C18.R3"
     ctx.rule(rid, "clear empties list and map; get looks the key up in the map; len is the map's length; load_factor = len / capacity", floor=4)
-    def one_path(key):
+    def all_paths(key):
         f = ctx.fn(rid, key)
         try:
-            ps = returning_paths(f)
+            return f, returning_paths(f)
         except NotLoopFree:
-            return f, None
-        return f, (ps[0] if len(ps) == 1 else None)
-    f, pe = one_path(HTM + "clear")
-    cleared = set()
-    if pe:
+            return f, []
+
+    def every(f, ps, what, pred, shown):
+        # every returning path must do it (assertions of invariants add paths that differ only in what they test)
+        if not ps:
+            ctx.lost(rid, "%s: no loop-free returning path" % what)
+            return
+        bad = [pe for pe in ps if not pred(pe)]
+        ctx.ob(rid, what, not bad, "" if not bad else shown(bad[0]), ctx.where(f))
+
+    def cleared_of(pe):
+        cleared = set()
         for b, t in pe.calls:
             if t[0] == "call" and t[1].endswith("::clear"):
                 x = t[2][0]
@@ -203,21 +216,33 @@ def r3_others(ctx):
                     x = x[1]
                 if x[0] == "f":
                     cleared.add(x[2])
-    ok = cleared == {"entry_list", "entry_map"}
-    ctx.ob(rid, "clear-both", ok, "" if ok else "clear() empties %s (expected entry_list and entry_map)" % sorted(cleared), ctx.where(f))
-    f, pe = one_path(HTM + "get")
-    t = pe.ret() if pe else None
-    ok = bool(t) and t[0] == "call" and t[1].endswith("HashMap::get") and t[2][0] == fld("entry_map") or (bool(t) and t[0] == "call" and t[1].endswith("HashMap::get") and t[2][0] == ("&", fld("entry_map")))
-    key_ok = bool(t) and t[0] == "call" and any(x == ("param", 2) for x in leaves(t[2][1]))
-    ctx.ob(rid, "get-looks-up-key-in-map", bool(ok and key_ok), "" if ok and key_ok else "get returns %s" % (show(t) if t else "?"), ctx.where(f))
-    f, pe = one_path(HTM + "len")
-    t = pe.ret() if pe else None
-    ok = bool(t) and t[0] == "call" and t[1].endswith("HashMap::len") and any(x == fld("entry_map") for x in leaves(t))
-    ctx.ob(rid, "len-is-map-len", ok, "" if ok else "len returns %s" % (show(t) if t else "?"), ctx.where(f))
-    f, pe = one_path(HTM + "load_factor")
-    t = pe.ret() if pe else None
-    ok = bool(t) and t[0] == "bin" and t[1] == "Div" and any(x[0] == "call" and x[1] == HTM + "len" for x in leaves(t[2])) and any(x == fld("capacity") for x in leaves(t[3]))
-    ctx.ob(rid, "load_factor-is-len-over-capacity", ok, "" if ok else "load_factor returns %s" % (show(t) if t else "?"), ctx.where(f))
+        return cleared
+    f, ps = all_paths(HTM + "clear")
+    every(f, ps, "clear-both", lambda pe: cleared_of(pe) >= {"entry_list", "entry_map"},
+          lambda pe: "clear() empties %s (expected entry_list and entry_map)" % sorted(cleared_of(pe)))
+
+    def strip(t):
+        while t and t[0] == "&":
+            t = t[1]
+        return t
+
+    def get_ok(pe):
+        t = pe.ret()
+        return bool(t) and t[0] == "call" and t[1].endswith("HashMap::get") and strip(t[2][0]) == fld("entry_map") and any(x == ("param", 2) for x in leaves(t[2][1]))
+    f, ps = all_paths(HTM + "get")
+    every(f, ps, "get-looks-up-key-in-map", get_ok, lambda pe: "get returns %s" % show(pe.ret()))
+
+    def len_ok(pe):
+        t = pe.ret()
+        return bool(t) and t[0] == "call" and t[1].endswith("HashMap::len") and any(x == fld("entry_map") for x in leaves(t))
+    f, ps = all_paths(HTM + "len")
+    every(f, ps, "len-is-map-len", len_ok, lambda pe: "len returns %s" % show(pe.ret()))
+
+    def lf_ok(pe):
+        t = pe.ret()
+        return bool(t) and t[0] == "bin" and t[1] == "Div" and any(x[0] == "call" and x[1] == HTM + "len" for x in leaves(t[2])) and any(x == fld("capacity") for x in leaves(t[3]))
+    f, ps = all_paths(HTM + "load_factor")
+    every(f, ps, "load_factor-is-len-over-capacity", lf_ok, lambda pe: "load_factor returns %s" % show(pe.ret()))
 
 
 def r4_wrapper(ctx):
